@@ -41,8 +41,16 @@ def main():
             run.notes.append("model driver unavailable: correspondence skipped")
             os.environ["OSQ_NO_MODEL"] = "1"
             fn(run)
-    except (OSError, MemoryError, KeyboardInterrupt, NameError, ImportError, SyntaxError):
+    except (OSError, MemoryError, KeyboardInterrupt, NameError, ImportError, SyntaxError) as ex:
         traceback.print_exc()
+        tb_ = traceback.extract_tb(ex.__traceback__)
+        raised_in_impl = any("/opensquirrel/" in fr.filename for fr in tb_)          # the exception passed through the implementation
+        if isinstance(ex, (NameError, ImportError)) and raised_in_impl:
+            # raised inside the implementation while the check was using it: a failure on that input, not a harness problem
+            run.violation(f"check aborted by {type(ex).__name__} raised inside the implementation: {str(ex)[:200]}",
+                          {"traceback": traceback.format_exc()[-3000:], "last_cases": run.samples[-2:]})
+            if hasattr(signal, "SIGALRM"): signal.alarm(0)
+            return F.finish(run, pr)
         print(f"[{pid}] infrastructure failure"); return 2
     except F.Abort:
         pass                                    # the violations that settled the verdict are already recorded
